@@ -49,6 +49,14 @@ def build_harness():
     t0 = time.time()
     env = dict(os.environ)
     env["CARGO_NET_OFFLINE"] = "true"
+    # a background sweep started with `vp run --with-repo` works on snapshots of /verif and /repo: point the
+    # snapshot's harness at the repo snapshot (never done in /verif itself, whose checks must build from /repo)
+    snap = os.environ.get("VP_RUN_REPO")
+    if snap and ROOT.startswith("/root/.vp/runs/") and os.path.isdir(snap):
+        ct = os.path.join(HARNESS, "Cargo.toml")
+        txt = open(ct).read()
+        if '"/repo/' in txt:
+            open(ct, "w").write(txt.replace('"/repo/', '"' + snap.rstrip("/") + "/"))
     lock = os.path.join(HARNESS, "Cargo.lock")
     if not os.path.exists(lock):
         shutil.copy(os.path.join(os.environ.get("KOLIBRIE_REPO", "/repo"), "Cargo.lock"), lock)
